@@ -180,7 +180,7 @@ theorem C03_count_facts (tops : List BOp) (o oc : Onto) (hrun : runB tops {} = s
     (∀ x, (annOf k (runA ops oc).terms x).length ≤ ((runA ops oc).recs k).length) ∧
     (∀ d a, a ∈ ancOf oc d →
       (annOf k (runA ops oc).terms d).length ≤ (annOf k (runA ops oc).terms a).length) := by
-  obtain ⟨hinv, rank, hcl, hf⟩ := connected_annInv tops o oc hrun hac hc
+  obtain ⟨hinv, ⟨rank, hcl, hf⟩, _, _⟩ := connected_annInv tops o oc hrun hac hc
   have H := (C02_history _ _ rank hcl ops oc hinv hf).1
   have hres := (C02_resolves tops o oc hrun hac hc ops k).1
   have hrecs0 : ∀ k, ((oc.recs k).map (·.id)).Nodup := by
